@@ -5,6 +5,7 @@ file and every physical line of that file, every span X can match lies inside X'
 line (so the expectation never depends on regex greediness, and 'surrounding text does not itself match a
 configured pattern'). Everything else is discarded and counted.
 """
+import os
 import re
 
 from packaging.version import InvalidVersion, Version
@@ -313,7 +314,7 @@ def _week53(names, st):
 
 
 def gen_project(R, bvmods, today, *, eol_choices=("\n",), filler="plain", legacy=False, n_files=None,
-                max_patterns=4, vp=None, state=None, shared_line_p=0.35, cfg_fmt=None, globs=True,
+                max_patterns=4, vp=None, state=None, shared_line_p=0.35, cfg_fmt=None, globs=True, aliases=True,
                 allow_partial=True, commit_cfg=None, bom_p=0.0, repeat_p=0.3):
     """Generate one project. Returns (Project, None) or (None, discard_reason)."""
     proj = Project()
@@ -371,7 +372,9 @@ def gen_project(R, bvmods, today, *, eol_choices=("\n",), filler="plain", legacy
             k = R.randint(1, len(pats) - 1)
             base, dot, ext = fn.rpartition(".")
             entries.append((fn, pats[:k]))
-            entries.append((R.choice([base + ".*", "./" + fn, "./" + fn]), pats[k:]))
+            dirs = sorted({n.split("/")[0] for n in fnames if "/" in n})
+            alias = [dirs[0] + "/../" + fn] if aliases and dirs and "/" not in fn else []   # same file, path not normalised
+            entries.append((R.choice([base + ".*", "./" + fn, "./" + fn] + alias * 2), pats[k:]))
         else:
             entries.append((key, pats))
         per_file[fn] = pats
@@ -398,6 +401,9 @@ def gen_project(R, bvmods, today, *, eol_choices=("\n",), filler="plain", legacy
     allnames = fnames + [proj.cfg_name]
     for key, pats in entries:
         ckey = key[2:] if key.startswith("./") else key
+        if "/../" in ckey:
+            ckey = os.path.normpath(ckey)
+            proj.meta["aliased_path_entries"] = proj.meta.get("aliased_path_entries", 0) + 1
         matched = [n for n in allnames if (n == ckey or (("*" in ckey or "?" in ckey) and
                                                         fnmatch.fnmatchcase(n, ckey) and n.count("/") == ckey.count("/")))]
         if not matched:
@@ -534,6 +540,7 @@ def gen_project(R, bvmods, today, *, eol_choices=("\n",), filler="plain", legacy
     if why:
         return None, "layout:" + why.split(":")[0]
     proj.meta = {"cfg_comment": proj.meta.get("cfg_comment"), "repeated_occurrences": proj.meta.get("repeated_occurrences", 0), "cfg_extra": commit_cfg, "bom_files": proj.meta.get("bom_files", []), "n_files": nf, "fmt": fmt, "explicit_cfg": explicit_cfg, "quote": quote,
+                 "aliased_path_entries": proj.meta.get("aliased_path_entries", 0),
                  "shared_lines": sum(1 for _ in _shared_lines(proj)), "kinds": sorted({p.kind for p in proj.plants}),
                  "eols": sorted(set(proj.eol.values())), "globs": sum(1 for k, _ in entries if "*" in k or "?" in k)}
     return proj, None
